@@ -602,7 +602,10 @@ func (r *runner) createTasks(ctx context.Context, nodeMap map[string]any, optMap
 		}
 
 		nextTasks = append(nextTasks, &task{
-			ctx:     forwardCheckPoint(setNodeKey(ctx, nodeKey), nodeKey),
+			// a task created while the run proceeds is a new execution: it must not pick up the
+			// sub-checkpoint that an earlier, interrupted execution of the same node left behind
+			// (those are handed out by restoreTasks only)
+			ctx:     clearCheckPoint(setNodeKey(ctx, nodeKey)),
 			nodeKey: nodeKey,
 			call:    call,
 			input:   nodeInput,
